@@ -364,6 +364,28 @@ def untracked_loop(mode, length):
         del w, g, refs
         gc.collect()
         return res
+    if mode == "no_grad_inner_exception":
+        # an inner no_grad block (a helper's own) is left by an exception that the loop inside the OUTER block catches: everything up to the end of the outer block stays untracked
+        w = sg.tensor([1.0, 2.0, 3.0], requires_grad=True)
+        g = sg.tensor([0.5, -0.5, 0.25], requires_grad=True)
+        w0 = w.data.copy()
+        with sg.no_grad():
+            for t in range(length):
+                refs.append(weakref.ref(w))
+                if t % 10 == 0:
+                    try:
+                        with sg.no_grad():
+                            raise ValueError("malformed batch")
+                    except ValueError:
+                        pass
+                w = w - 0.1 * g
+        gc.collect()
+        alive = sum(1 for r in refs if r() is not None)
+        res = {"mode": mode, "loop": length, "operands_alive": alive, "live_tensors_added": live_tensors() - base, "result_requires_grad": bool(w.requires_grad),
+               "result_has_grad_fn": w._grad_fn is not None, "value_ok": bool(np.allclose(w.data, w0 - 0.1 * length * g.data, rtol=1e-2))}
+        del w, g, refs
+        gc.collect()
+        return res
     if mode == "no_grad_logging":
         # the logging idiom: every step builds a TRACKED graph (a parameter is involved), then -- inside no_grad -- derives small untracked results from its output and
         # keeps THEM (a list of logged values); the step's graph must be collectable although the logged values stay
